@@ -610,3 +610,20 @@ mut("recover_does_not_restore_prev_wal", ["C02"], "ROLE-4", file="src/versioning
 
         // Drop the manifest reader""",
     new="""        // Drop the manifest reader""")
+
+# ---- PAIR-8
+mut("reversal_does_not_step_inner_iterator", ["C04"], "PAIR-8", file="src/iterator.rs",
+    old="""            if !self.inner_iter.is_valid() {
+                let _seek_result = self.inner_iter.seek_to_first();
+            } else {
+                self.inner_iter.next();
+            }
+""",
+    new="""            if !self.inner_iter.is_valid() {
+                let _seek_result = self.inner_iter.seek_to_first();
+            }
+""")
+mut("merging_next_does_not_advance_current", ["C04"], "PAIR-8", file="src/versioning/file_iterators.rs",
+    old="""        self.advance_current_iterator();
+        self.find_smallest();""",
+    new="""        self.find_smallest();""", note="fails tests probably; checker test only", suite=False)
